@@ -80,6 +80,11 @@ def run_case(case, ctx):
     path, T = files.build(case["file"], d, "src.sgz")
     out = os.path.join(d, "adv.sgz")
     exc = None
+    sentinel = None
+    if case.get("unsupported") and case["file"]["values"]["vseed"] % 2:
+        sentinel = b"previous content of the output path " * 5
+        with open(out, "wb") as fh:
+            fh.write(sentinel)
     c = SgzConverter(path, preload=bool(case.get("preload")))
     try:
         u = case.get("u", [0.5, 0.5, 0.5])
@@ -110,6 +115,11 @@ def run_case(case, ctx):
     if case.get("unsupported"):
         if exc is None:
             raise Violation("unsupported-input-not-refused", f"{files.describe(case['file'])}")
+        if sentinel is not None:
+            if not os.path.exists(out) or open(out, "rb").read() != sentinel:
+                raise Violation("refusal-touched-existing-output", f"{files.describe(case['file'])}: the file already at the output path was changed")
+        elif os.path.exists(out):
+            raise Violation("refusal-left-output", f"{files.describe(case['file'])}: {os.path.getsize(out)} bytes left behind")
         return {"sig": ["unsupported", case["file"]["rate"], case["file"]["blockshape"]], "labels": ["unsupported"]}
     if exc is not None:
         raise Violation(f"reblock-failed:{type(exc).__name__}", f"{files.describe(case['file'])}: {exc}")
